@@ -72,6 +72,30 @@ Section Transfer.
       intros E. rewrite E in Hn'. exact Hn'.
     - rewrite HP. intros n. apply adm_spec_single.
   Qed.
+  (* only the last key counts: re-keying to g1 and then to g2 is re-keying to g2 *)
+  Lemma rekey_twice g1 g2 :
+    rewrite_delegations (fst (rewrite_delegations P g1)) g2 = rewrite_delegations P g2.
+  Proof.
+    apply rewrite_twice.
+    - apply submodel.
+    - pose proof (proj2 (generate_adms_inv A L d P Hw HL Hin)) as Hd. apply c_ids_In in Hd.
+      destruct Hd as [n [Hn Hdel]]. destruct (present_exact n Hn Hdel) as [n' [Hn' _]].
+      intros E. rewrite E in Hn'. exact Hn'.
+    - rewrite HP. intros n. apply adm_spec_single.
+  Qed.
+
+  (* re-keying to the key the entries already carry changes nothing: a second re-keying to the same id, and a
+     re-keying of the fresh partition to its own delegation id *)
+  Lemma rekey_idempotent gid :
+    rewrite_delegations (fst (rewrite_delegations P gid)) gid = (fst (rewrite_delegations P gid), None) /\
+    rewrite_delegations P d = (P, None).
+  Proof.
+    split.
+    - rewrite rekey_twice. rewrite rekey_only_key. reflexivity.
+    - rewrite rekey_only_key. f_equal. rewrite <- (graph_eta P) at 3. f_equal.
+      rewrite <- (map_id (gnodes P)) at 2. apply map_ext_in. intros n Hn. apply rekeyed_same_key.
+      intros d' x Hx. apply (no_leak n d' x Hn Hx).
+  Qed.
 End Transfer.
 
 (* the store: a call that returns has left the source and the bystanders untouched, and the new graphs are the
